@@ -2,6 +2,7 @@ package props
 
 import (
 	"encoding/json"
+	"fmt"
 	"testing"
 
 	"pgregory.net/rapid"
@@ -149,7 +150,7 @@ func init() {
 	}
 }
 
-const ruleC04 = "rapid: a table state built by a generated write history (hash+range schema, 0-2 indexes, index keys with many ties, 1-3 partitions), a generated Query or Scan (key-condition shapes of C02, optional filter, both directions, table or index) and a Limit drawn from 1..n+2; metamorphic oracle on each SDK client against itself: following LastEvaluatedKey until none is returned yields exactly the item sequence of the same request without Limit, every page has at most Limit items, the number of pages is bounded by items+4, Count == len(Items); optionally the item named by the LastEvaluatedKey of page k (or another already returned item) is deleted before continuing, and the remaining pages must be the not-yet-returned items of the new unpaginated result in order. Non-trivial = >= 3 pages, or a page of filtered-out items only, or a boundary delete; distinct = hash of (state, read, limit, delete plan)."
+const ruleC04 = "rapid: a table state built by a generated write history (hash+range schema, 0-2 indexes, index keys with many ties, 1-3 partitions; a tenth of the cases with 33-70 items in one or two partitions), a generated Query or Scan (key-condition shapes of C02, optional filter, both directions, table or index) and a Limit drawn from 1..n+2; metamorphic oracle on each SDK client against itself: following LastEvaluatedKey until none is returned yields exactly the item sequence of the same request without Limit, every page has at most Limit items, the number of pages is bounded by items+4, Count == len(Items); optionally the item named by the LastEvaluatedKey of page k (or another already returned item) is deleted before continuing, and the remaining pages must be the not-yet-returned items of the new unpaginated result in order. Non-trivial = >= 3 pages, or a page of filtered-out items only, or a boundary delete; distinct = hash of (state, read, limit, delete plan)."
 
 // TestC04 decides property C04.
 func TestC04(t *testing.T) {
@@ -161,6 +162,28 @@ func TestC04(t *testing.T) {
 		o := avOpts(1, true)
 		g := newTgen(rt, s, o, rapid.IntRange(3, 9).Draw(rt, "poolSize"))
 		g.maxAttrs = 2
+		// a tenth of the cases use a large table (dozens of items in one or two
+		// partitions): page boundaries deep inside long key lists
+		large := rapid.IntRange(0, 9).Draw(rt, "largeTable") == 0
+		if large {
+			g.keys = nil
+			nk := rapid.IntRange(33, 70).Draw(rt, "largeKeys")
+			for i := 0; i < nk; i++ {
+				k := model.Item{s.Hash: drawKeyValue(rt, s.Attrs[s.Hash], o, "largeHash")}
+				if i > 0 && rapid.IntRange(0, 9).Draw(rt, "sameHash") < 8 {
+					k[s.Hash] = g.keys[0][s.Hash].Clone()
+				}
+				switch s.Attrs[s.Range] {
+				case "N":
+					k[s.Range] = model.Num(fmt.Sprint(100 + i))
+				case "B":
+					k[s.Range] = model.Bin([]byte{byte(i + 1), 3})
+				default:
+					k[s.Range] = model.Str(fmt.Sprintf("r%03d", i))
+				}
+				g.keys = append(g.keys, k)
+			}
+		}
 		failSetup := func(f *failure) {
 			if f != nil {
 				failCase(rt, "C04", "history:C02", f, w.asCase())
@@ -169,6 +192,18 @@ func TestC04(t *testing.T) {
 		_, _, f := w.do(model.Op{Kind: "CreateTable", Schema: &s})
 		failSetup(f)
 		n := rapid.IntRange(1, 12).Draw(rt, "writes")
+		if large {
+			// put every key once, then a few more writes
+			for _, k := range g.keys {
+				it := g.item(rt)
+				for a, v := range k {
+					it[a] = v.Clone()
+				}
+				_, _, f = w.do(model.Op{Kind: "Put", Table: s.Table, Item: it})
+				failSetup(f)
+			}
+			n = rapid.IntRange(0, 5).Draw(rt, "moreWrites")
+		}
 		for i := 0; i < n; i++ {
 			switch rapid.IntRange(0, 9).Draw(rt, "writeKind") {
 			case 0:
@@ -211,6 +246,9 @@ func TestC04(t *testing.T) {
 		}
 		if info.deleted {
 			st.Class("boundary-delete")
+		}
+		if large {
+			st.Class("large-table")
 		}
 		if read.Index != "" {
 			st.Class("read-on-index")
